@@ -9,9 +9,10 @@ def is_tok(t: V) -> bool:
 
 
 def tok_text_ok(t: V) -> bool:
-    """opaque: the text of a string token never ends in a lone backslash (the lexer's string state always takes the character after a
-    backslash); only parse_string_literal looks inside"""
-    return not dec_dangling(str_body(t), 0)
+    """opaque: what the parser relies on about token TEXTS, guaranteed by the lexer's regular expressions: a string token never ends
+    in a lone backslash (the string state always takes the character after a backslash) and the text of an INDEX token is an
+    integer literal that int() accepts (RE_INDEX); only the functions that decode such texts look inside"""
+    return not dec_dangling(str_body(t), 0) and implies(t.type_ == TokenType.INDEX, int_text_ok(str_of(t.value)))
 
 
 def str_body(t: V) -> str:
@@ -43,3 +44,7 @@ def is_binop(t: V) -> bool:
     """the token types of BINARY_OPERATORS"""
     return (t == TokenType.AND or t == TokenType.EQ or t == TokenType.GE or t == TokenType.GT or t == TokenType.LE
             or t == TokenType.LT or t == TokenType.NE or t == TokenType.OR)
+
+
+def wf_selectors(sels: list, env: V) -> bool:
+    return all(isinstance(x, JSONPathSelector) and x.env == env and wf_selector(x, env) for x in sels)
